@@ -155,7 +155,7 @@ def make(cfg_in):
                  r_out_attrs=list(ro) if ro is not None else None,
                  l_out_prefix='l_', r_out_prefix='r_', tok_return_set=True, with_id=False,
                  n_jobs=1)
-        if cfg['kernel'] == 'real':
+        if cfg['kernel'] == 'real' and not cfg.get('sym_threshold'):
             s['threshold'] = symdata.choice(c, 'thr', cfg['thresholds'])
             if callable(s['threshold']):
                 s['threshold'] = s['threshold'](c)
